@@ -179,11 +179,22 @@ class Decorator(object):
         return self.bknames.get(b, b[1])
 
     # ------------------------------------------------------------------ enumeration
-    def run(self, fnode, unroll=None):
+    def run(self, fnode, unroll=None, known=None):
+        """known: the published parameter names of an interface closure; a parameter added later is judged at its constant default
+        (`clear(keepstats=False, dump=False)` behaves like today's clear unless the new flag is used)"""
         if unroll is not None:
             self.engine.unroll = unroll
         self.model.assumed = []
-        return self.engine.run_function(fnode, self.env, facts={})
+        params = None
+        if known is not None:
+            a = fnode.args
+            pos = [x.arg for x in a.args]
+            dflt = dict(zip(pos[len(pos) - len(a.defaults):], a.defaults)) if a.defaults else {}
+            for x, dv in zip(a.kwonlyargs, a.kw_defaults):
+                if dv is not None:
+                    dflt[x.arg] = dv
+            params = dict((n, C(dv.value)) for n, dv in dflt.items() if n not in known and isinstance(dv, ast.Constant))
+        return self.engine.run_function(fnode, self.env, params=params, facts={})
 
     def wrapper_paths(self, unroll=None):
         return self.run(self.wrapper_node, unroll)
